@@ -24,15 +24,13 @@ Print Assumptions C03_ptr_fields_spec.
 
 (* ANY message, any limits: a pointer returned by readPtr is the spec's target of that word
    (same segment, byte offset, kind, section sizes, length), the target's bytes lie inside the
-   segments, the budget was charged its size; the single exception is the landing pad
-   [dfar_zero_pad], answered with null (known finding, dfar_zero_struct_refuted) *)
+   segments, the budget was charged its size *)
 Theorem C03_read_ptr_refines_spec_sound : forall m rl sid s wa depth p rl',
   bytes_ok m -> lookup_segment m sid = Ok s -> 0 <= rl ->
   readPtr true m rl sid s (8 * wa) depth = (Ok p, rl') ->
   exists t, spec_resolve false m sid wa = Some t /\ tgt_wf t /\ tgt_inside m t /\
-    if dfar_zero_pad m sid wa then p = nullPtr /\ rl' = rl
-    else p = ptr_of_target (uint_dec depth) (p_seg p) t /\ rl' = rl - tgt_cost t /\ tgt_cost t <= rl /\
-         list_repr t /\ (t = TgtNull \/ depth <> 0).
+    p = ptr_of_target (uint_dec depth) (p_seg p) t /\ rl' = rl - tgt_cost t /\ tgt_cost t <= rl /\
+    list_repr t /\ (t = TgtNull \/ depth <> 0).
 Proof. exact read_ptr_sound. Qed.
 Print Assumptions C03_read_ptr_refines_spec_sound.
 
@@ -46,7 +44,7 @@ Print Assumptions C03_read_ptr_inside.
    target is representable (segments within the 32-bit address space, count < 2^29) *)
 Theorem C03_read_ptr_refines_spec_complete : forall m rl sid s wa depth t,
   bytes_ok m -> segs_small m -> lookup_segment m sid = Ok s ->
-  spec_resolve false m sid wa = Some t -> list_repr t -> dfar_zero_pad m sid wa = false ->
+  spec_resolve false m sid wa = Some t -> list_repr t ->
   (t = TgtNull \/ depth <> 0) -> tgt_cost t <= rl ->
   exists cs, readPtr true m rl sid s (8 * wa) depth =
              (Ok (ptr_of_target (uint_dec depth) cs t), rl - tgt_cost t).
@@ -145,11 +143,13 @@ Theorem C03_upgrade_prefix_refuted :
 Proof. exact upgrade_prefix_refuted. Qed.
 Print Assumptions C03_upgrade_prefix_refuted.
 
-(* the deviation that remains in the code (known finding) *)
+(* as found (before the repair): a double-far pointer to an empty struct at word 0 of a segment
+   was read as the null pointer; the repaired code returns the empty struct *)
 Theorem C03_dfar_zero_struct_refuted :
   spec_resolve false ex_dfar0 0 0 = Some (TgtStruct 0 0 0 0) /\
   dfar_zero_pad ex_dfar0 0 0 = true /\
-  root ex_cfg ex_dfar0 1000 = (Ok nullPtr, 1000).
+  root (mkCfg 1000000 64 false true) ex_dfar0 1000 = (Ok nullPtr, 1000) /\
+  root ex_cfg ex_dfar0 1000 = (Ok (ptr_of_target 63 0 (TgtStruct 0 0 0 0)), 1000).
 Proof. exact dfar_zero_struct_refuted. Qed.
 Print Assumptions C03_dfar_zero_struct_refuted.
 
@@ -172,7 +172,6 @@ Print Assumptions C03_example.
    Go-faithful accessors returns exactly spec_decode's tree and consumes exactly its cost *)
 Theorem C03_walk_eq_spec : forall (c : config) (m : list (list Z)) (dcap pcap : Z),
   cfg_strict c = true -> bytes_ok m -> segs_small m ->
-  (forall sid wa, dfar_zero_pad m sid wa = false) ->
   (forall sid wa t, spec_resolve false m sid wa = Some t -> list_repr t) ->
   forall fuel rl sid s wa depth,
   seg_at m sid = Some s -> in_words s wa 1 = true ->
@@ -186,7 +185,6 @@ Print Assumptions C03_walk_eq_spec.
 
 Theorem C03_walk_eq_spec_hyps_satisfiable :
   bytes_ok zero_msg /\ segs_small zero_msg /\
-  (forall sid wa, dfar_zero_pad zero_msg sid wa = false) /\
   (forall sid wa t, spec_resolve false zero_msg sid wa = Some t -> list_repr t).
 Proof. exact walk_eq_spec_hyps_satisfiable. Qed.
 Print Assumptions C03_walk_eq_spec_hyps_satisfiable.
